@@ -149,3 +149,11 @@ def replay(case, seed):
     r = core.Result()
     run_case(r, seed, case['scheme'], case['label'], case['cfg'], case['profile'], case['kwlen'], case['relation'], only=case.get('keyword'))
     return r['violations']
+
+# a subset of the units is executed again in other environments (child interpreters): see core.run_variants
+ENV_VARIANTS = [{'name': 'python-O', 'flags': ['-O']}, {'name': 'home-unwritable', 'env': {'VERIF_HOME_UNWRITABLE': '1'}}]
+
+def variant_units(tier, seed, name):
+    pred = lambda uid, p: uid.endswith('/base/0')
+    return [u for u in units('quick', seed) if pred(u[0], u[1])]
+
